@@ -258,9 +258,11 @@ GlobLoop(ed, cp, neg, cmds, i, marked) ==
              stop == hit /\ ed1.ret # 0
              (* the edits made by this execution moved the mark bits with the lines *)
              mk1 == IF hit THEN ApplyLog(marked, ed1.lb.hist, ed.lb.hu + 1, ed1.lb.hu) ELSE marked
-             i1  == IF hit THEN Min2(i, ed1.row) ELSE i
-             (* next marked line at or after i1; its bit is cleared on the way *)
-             rest == {p \in mk1 : p >= i1}
+             (* the next line visited is the lowest line still marked, wherever the execution has moved it (C15: "each line of
+                the original range that still exists exactly once, in increasing order"); the marked lines keep their
+                order, so this is the successor in the original range.  An earlier version transcribed the scan of
+                ec_glob, which restarted at MIN(i, current line) and lost marked lines that had slid below it *)
+             rest == mk1
          IN IF stop THEN ed1
             ELSE IF rest = {} THEN ed1
             ELSE LET nx == CHOOSE p \in rest : \A q \in rest : p <= q IN
